@@ -327,11 +327,14 @@ fn eval_area(t: &mut Toks) -> R<String> {
     let mut s = format!("signed {} unsigned {}", proto::num(g.signed_area()), proto::num(g.unsigned_area()));
     match &g {
         Geometry::Rect(r) => {
-            let p = r.to_polygon();
+            let p = if (r.min().x.to_bits() ^ r.max().y.to_bits().rotate_left(5)) % 2 == 0 { r.to_polygon() } else { Polygon::from(*r) };
             s.push_str(&format!(" poly {} {}", proto::num(p.signed_area()), proto::num(p.unsigned_area())));
         }
         Geometry::Triangle(tr) => {
-            let p = tr.to_polygon();
+            // the two ways to the polygon form, in rotation (decided by the corners): `to_polygon()` and `Polygon::from`;
+            // both keep the corners as stored, so the signed area is that of the triangle as written
+            let pick = (tr.0.x.to_bits() ^ tr.1.y.to_bits().rotate_left(7) ^ tr.2.x.to_bits().rotate_left(13)) % 2;
+            let p = if pick == 0 { tr.to_polygon() } else { Polygon::from(*tr) };
             s.push_str(&format!(" poly {} {}", proto::num(p.signed_area()), proto::num(p.unsigned_area())));
         }
         _ => {}
